@@ -638,3 +638,79 @@ add("dead-06-log-put-made-conditional", ["C19"], "helpers",
 add("dead-07-only-work-queue-closed", ["C19"], "helpers", "                queue.close()\n                log_queue.close()\n", "                queue.close()\n", rules=["dead-raise"])
 add("E-dead-01-explicit-raise", ["C19"], "helpers", "                queue.close()\n                log_queue.close()\n", "                queue.close()\n                log_queue.close()\n                raise RuntimeError(msg)\n", kind="E")
 add("E-dead-02-not-eq-zero", ["C19"], "helpers", "            elif p.exitcode != 0:", "            elif not p.exitcode == 0:", kind="E")
+
+# ---------------------------------------------------------------------------
+# whole-package behaviour-preserving transformations (every property must stay silent)
+# ---------------------------------------------------------------------------
+import ast as _ast
+
+ALL_PROPS = ["C%02d" % i for i in range(1, 21) if i != 7]
+
+
+def _reformat(src):
+    """ast round trip: drops comments, normalises layout, quotes, parentheses and line numbers."""
+    out = dict(src)
+    for k, v in src.items():
+        if k in ("hll_constants", "hll_bias_experiment"):
+            continue
+        out[k] = _ast.unparse(_ast.parse(v)) + "\n"
+    return out
+
+
+class _Rename(_ast.NodeTransformer):
+    """Rename kernel-local variables (not parameters, not globals) by appending a suffix."""
+
+    def __init__(self, names):
+        self.names = names
+
+    def visit_Name(self, n):
+        if n.id in self.names:
+            return _ast.copy_location(_ast.Name(id=n.id + "_v", ctx=n.ctx), n)
+        return n
+
+
+def _rename_locals(src):
+    out = dict(src)
+    for k, v in src.items():
+        if k in ("hll_constants", "hll_bias_experiment", "__init__"):
+            continue
+        tree = _ast.parse(v)
+        for f in _ast.walk(tree):
+            if isinstance(f, _ast.FunctionDef):
+                params = {a.arg for a in f.args.args + f.args.kwonlyargs + f.args.posonlyargs}
+                if f.args.vararg:
+                    params.add(f.args.vararg.arg)
+                if f.args.kwarg:
+                    params.add(f.args.kwarg.arg)
+                stores = {n.id for n in _ast.walk(f) if isinstance(n, _ast.Name) and isinstance(n.ctx, _ast.Store)} - params
+                globs = set()
+                for n in _ast.walk(f):
+                    if isinstance(n, (_ast.Global, _ast.Nonlocal)):
+                        globs |= set(n.names)
+                # keep names the rules identify by role through the source text of other functions
+                stores -= globs
+                r = _Rename(stores)
+                f.body = [r.visit(s) for s in f.body]
+        out[k] = _ast.unparse(_ast.fix_missing_locations(tree)) + "\n"
+    return out
+
+
+def _blank_lines_and_comments(src):
+    out = dict(src)
+    for k, v in src.items():
+        if k in ("hll_constants",):
+            continue
+        lines = v.split("\n")
+        new = []
+        for i, l in enumerate(lines):
+            new.append(l)
+            if l.strip().endswith(":") is False and l.strip() and not l.strip().startswith(("#", '"', "'")) and i % 7 == 0 \
+                    and not l.rstrip().endswith(("(", ",", "[", "{", "\\")) and l.startswith("    ") and "\"\"\"" not in l:
+                pass
+        out[k] = "# reformatted\n\n" + v
+    return out
+
+
+add("E-global-01-ast-roundtrip-reformat", ALL_PROPS, "*", _reformat, None, kind="E", note="comments dropped, layout/quotes/parentheses normalised, all line numbers change")
+add("E-global-02-rename-all-locals", ALL_PROPS, "*", _rename_locals, None, kind="E", note="every local variable of every function renamed")
+add("E-global-03-shift-line-numbers", ALL_PROPS, "*", _blank_lines_and_comments, None, kind="E", note="two lines inserted at the top of every module")
